@@ -27,7 +27,7 @@ def perm(order, P):
     return idx
 
 
-def make_op(P, n, order, sdecl='identity'):
+def make_op(P, n, order, sdecl='identity', long_rhs=False):
     """parameters p1..pP declared in this order; first use in the equations follows `order`; the state variables are
     declared in equation order or (sdecl='reverse') against it"""
     use = perm(order, P)
@@ -39,6 +39,10 @@ def make_op(P, n, order, sdecl='identity'):
     eqs = []
     for i in range(n):
         rhs = f'-x{i + 1}' + ''.join(f' + {t}' for t in terms[i])
+        if long_rhs:
+            # powers spread over a long line, and a literal that the code printer writes in exponent notation
+            rhs += ''.join(f' - {round(0.01 * (q + 1), 3)}*x{(q % n) + 1}^{2 + q % 3}*p{(q % P) + 1}^2' for q in range(6))
+            rhs += ' + 0.00002*x1^2 - 2.5e-7*x1'
         eqs.append(f"x{i + 1}' = {rhs}")
     variables = {}
     for i in (range(n) if sdecl == 'identity' else reversed(range(n))):
@@ -82,6 +86,13 @@ def cases(tier, seed):
             out.append({'P': 4, 'n': 2, 'order': 'identity', 'scen': list(so), 'over': {}, 'cmp_single': True})
             out.append({'P': 4, 'n': 2, 'order': 'identity', 'scen': list(so), 'over': {'NMX': 55}, 'cmp_single': True,
                         'after_other': True})
+    # boundary-value residual DSL (boundary_conditions / integral_constraints): par_<name> tokens address the PAR slot of
+    # <name>, also behind the reserved range and for a parameter that only a constraint uses
+    for P in ((4, 12) if tier == 'quick' else (4, 10, 11, 12, 16)):
+        for order in (('reverse',) if tier == 'quick' else ('identity', 'reverse', 'rotate')):
+            out.append({'bvp_dsl': True, 'P': P, 'n': 3, 'order': order})
+    # a long polynomial right-hand side with powers (Fortran line continuation next to `**`) and a literal < 1e-4
+    out.append({'long_rhs': True, 'P': 11, 'n': 2, 'order': 'identity', 'scen': ['ivp'], 'over': {}})
     out.append({'pure_indices': True})
     return out
 
@@ -94,7 +105,8 @@ def describe(tier, seed):
                     'declaration order, parnames/unames/STPNT/forwarding call/DFDP columns use one slot per parameter, '
                     'NDIM/NPAR) and the f2py-wrapped stpnt/func are called (declared values in the named slots, vector field '
                     'equals the reference at probe points, perturbing args(slot(p)) acts like perturbing p, dfdu/dfdp equal '
-                    'central differences); plus _auto_param_indices for every n <= 64; non-trivial = all',
+                    'central differences); boundary-value residuals written with the par_<name> DSL called through f2py; a long '
+                    'polynomial right-hand side with powers and small literals; plus _auto_param_indices for every n <= 64; non-trivial = all',
             'bounds': {'parameters': 16, 'state_vars': 3}}
 
 
@@ -108,10 +120,12 @@ def run_case(case):
         return res
     if case.get('pure_indices'):
         return pure_indices(res, viol)
+    if case.get('bvp_dsl'):
+        return run_bvp_dsl(case, res, sig, viol)
     from pyrates import OperatorTemplate, NodeTemplate, CircuitTemplate
     import copy
     P, n = case['P'], case['n']
-    op = make_op(P, n, case['order'], case.get('sdecl', 'identity'))
+    op = make_op(P, n, case['order'], case.get('sdecl', 'identity'), long_rhs=bool(case.get('long_rhs')))
     if case.get('after_other'):
         # an unrelated export with its own scenarios and overrides happened before in this process
         try:
@@ -299,5 +313,69 @@ def pure_indices(res, viol):
         if nn and idx[-1] > nn + 5:
             return viol('auto_param_indices_sparse', n=nn, got=idx)
     res['outcome'] = 'pure'
+    res['ok'] = True
+    return res
+
+
+def run_bvp_dsl(case, res, sig, viol):
+    """export with boundary_conditions / integral_constraints and call the compiled bcnd / icnd routines"""
+    from pyrates import OperatorTemplate, NodeTemplate, CircuitTemplate
+    import copy
+    P, n = case['P'], case['n']
+    op = make_op(P, n, case['order'])
+    op['vars']['intval'] = 0.25          # used by the integral constraint only
+    fname = f"b18_{P}_{case['order']}"
+    pa, pb, pc = f'p{P}', 'p2' if P > 1 else 'p1', f'p{max(P - 1, 1)}'
+    try:
+        o = OperatorTemplate('aop', equations=list(op['eqs']), variables=copy.deepcopy(op['vars']))
+        c = CircuitTemplate('an', nodes={'p': NodeTemplate('pn', operators=[o])})
+        f, a, names, svm = c.get_run_func(
+            'vfx', step_size=1e-3, file_name=fname, backend='fortran', float_precision='float64', auto=True, vectorize=False,
+            solver='scipy', verbose=False, auto_constants=('ivp', 'bvp'),
+            boundary_conditions=[f'u0_x1 - u1_x1 + par_{pa}', f'u0_x2 - par_{pb}*u1_x2', f'u1_x3 - par_{pc}'],
+            integral_constraints=['u_x1 - par_intval'])
+    except Exception as e:
+        sig['exc'] = type(e).__name__
+        return viol('raises', detail=f'{type(e).__name__}: {e}'[:300])
+    src = re.sub(r'&\s*\n\s*&?', '', open(f'{fname}.f90').read())
+    consts = {}
+    for line in open('c.bvp').read().splitlines():
+        if '=' in line:
+            k, v = line.split('=', 1)
+            try:
+                consts[k.strip()] = ast.literal_eval(v.strip())
+            except Exception:
+                consts[k.strip()] = v.strip()
+    slot = {v: k for k, v in consts.get('parnames', {}).items()}
+    for name in [f'p{j + 1}' for j in range(P)] + ['intval']:
+        if name not in slot or slot[name] in RESERVED:
+            return viol('parnames', missing_or_reserved=name, got=consts.get('parnames'))
+    for routine in ('bcnd', 'icnd'):
+        i0 = src.find(f'subroutine {routine}(')
+        body = src[i0:src.find(f'end subroutine {routine}')]
+        used = sorted({int(k) for k in re.findall(r'args\((\d+)\)', body)})
+        if any(k not in slot.values() for k in used):
+            return viol('residual_reads_foreign_slot', routine=routine, slots=used, parnames=consts.get('parnames'))
+    if os.getcwd() not in sys.path:
+        sys.path.insert(0, os.getcwd())
+    mod = importlib.import_module(fname)
+    par = np.zeros(max(int(consts.get('NPAR', 36)), 36))
+    y0 = np.zeros(n)
+    mod.stpnt(y0, par, 0.0)
+    val = lambda nm: float(op['vars'][nm])
+    for nm in slot:
+        if abs(par[slot[nm] - 1] - val(nm)) > 1e-12:
+            return viol('stpnt_value', param=nm, slot=slot[nm], got=float(par[slot[nm] - 1]))
+    u0, u1 = np.array([0.3, -0.7, 1.1]), np.array([0.9, 0.4, -0.6])
+    icp = np.array([1, 2], dtype=np.int32)
+    fb = np.asarray(mod.bcnd(par, icp, u0, u1, 0, np.zeros((3, 40), order='F')), dtype=float)
+    fb_ref = np.array([u0[0] - u1[0] + val(pa), u0[1] - val(pb) * u1[1], u1[2] - val(pc)])
+    fi = np.asarray(mod.icnd(par, icp, u0, u0, u0, u0, 0, np.zeros((1, 40), order='F')), dtype=float)
+    res['evals'] += 2
+    if fb.shape != fb_ref.shape or np.max(np.abs(fb - fb_ref)) > 1e-12:
+        return viol('bcnd_residual', got=fb.tolist(), expected=fb_ref.tolist())
+    if abs(float(fi.reshape(-1)[0]) - (u0[0] - 0.25)) > 1e-12:
+        return viol('icnd_residual', got=fi.tolist(), expected=[u0[0] - 0.25])
+    res['outcome'] = 'bvp_dsl'
     res['ok'] = True
     return res
